@@ -297,6 +297,8 @@ def run_check(pid: str, fn, tier: str, seed: int, level: str, only_key: str | No
         if type(e).__name__ in ("Undecidable", "PERaise"):
             # a value the rule needs could not be decided statically / the extracted code refuses
             _write_error_evidence(chk, f"{type(e).__name__}: {e}")
+            if os.environ.get("VERIF_DEBUG"):
+                traceback.print_exc()
             print(f"ANALYSIS-ERROR property={pid} {type(e).__name__}: {e}")
             return 2
         return _internal(chk, pid, e)
